@@ -683,6 +683,9 @@ func FSCleanup() {
 	fsDirs = map[int]string{}
 }
 
+// SetRenderFailure(k): the k-th file rendered by the stubbed pipeline fails (0: none).
+func SetRenderFailure(k int) {}
+
 // Observed: a value the symbolic stubs recorded (natively unavailable: "").
 func Observed(name string) string { return "" }
 
